@@ -101,6 +101,7 @@ def r3_index_loops(text):
         (r"for\s+(&?\w+)\s+in\s+&mut\s+([\w.]+)\s*\{", "mut"),
         (r"for\s+(&?\w+)\s+in\s+&([\w.]+)\s*\{", "ref"),
         (r"for\s+(&?\w+)\s+in\s+([\w.]+)\.iter\(\)\s*\{", "ref"),
+        (r"for\s+(\w+)\s+in\s+(\w+)\s*\{", "val"),
     ]
     while True:
         mask = rustscan.code_mask(out)
@@ -131,8 +132,8 @@ def r3_index_loops(text):
         elem = "%s[__k%d]" % (expr, k)
         if kind == "mut":
             bind = "let %s = &mut %s;" % (pv, elem)
-        elif deref:
-            bind = "let %s = %s;" % (pv, elem)
+        elif deref or kind == "val":
+            bind = "let %s = %s;" % (pv, elem)   # element copied out (Copy types only)
         else:
             bind = "let %s = &%s;" % (pv, elem)
         # the loop body: if it has no `continue`, advance the index at the END of the body (so that
@@ -577,12 +578,12 @@ class Fn:
         if self.stub:
             return variant(base, [], "stub")
         out.append(variant(base, [], "main"))
-        for f in self.findings:
+        for f in (self.findings if getattr(unit, "_emit_findings", True) else []):
             vn = "%s__F_%s" % (base, re.sub(r"[^A-Za-z0-9_]", "_", f.label))
             out.append(variant(vn, [f], "finding"))
             fidv = "%s%s" % ((self.container_short() + "::") if self.container else "", vn)
             unit.fns[fidv]["finding_label"] = f.label
-        if not self.no_canary:
+        if not self.no_canary and getattr(unit, "_emit_findings", True):
             out.append(variant("%s__canary" % base, [Clause("canary", "false")], "canary"))
         return "".join(out)
 
@@ -636,7 +637,7 @@ class Lemma:
             return txt
 
         out.append(variant(self.name, [], "main"))
-        if not self.no_canary and self.requires:
+        if not self.no_canary and self.requires and getattr(unit, "_emit_findings", True):
             out.append(variant(self.name + "__canary", [Clause("canary", "false")], "canary"))
         return "".join(out)
 
@@ -693,7 +694,10 @@ class Unit:
         self.fns[fid] = {"kind": kind, "clauses": {c.label: c for c in clauses}, "props": props,
                          "lemma": lemma, "obj": obj}
 
-    def generate(self):
+    def generate(self, findings=True):
+        """findings=False: leave the finding variants out (they are verified by a second, parallel
+        run on the full file restricted to `*__F_*`, under a small resource limit)."""
+        self._emit_findings = findings
         self.reset()
         parts = [HEADER]
         for p in self.prelude:
